@@ -73,3 +73,24 @@ def growth_records(pa, rng, quick):
             from .common import MachineryError
             raise MachineryError(f"growth instances do not cross the {b} boundary (max {top})")
     return recs
+
+
+def planted_records(pa, rng, quick, backends=("CBC",)):
+    """C02 beyond the reach of any search: instances with more than 10 000 (15 000, 20 000) candidates whose optimum is known BY
+    CONSTRUCTION - unit i of the first annotator and unit i of the second are at distance 0, every other pair between half and
+    twice delta_empty (so every pair is a candidate) - an alignment of cost 0 exists and no cost is negative, hence the minimum
+    is 0 (handed to TraceAlign as the model's optimum)."""
+    recs = []
+    for k in ([104] if quick else [104, 125, 150]):
+        de = 8
+        D = [[[], [[0 if i == j else rng.choice([4, 8, 12, 16]) for j in range(k)] for i in range(k)]], [[], []]]
+        inst = {"n": 2, "sizes": [k, k], "D": D, "de": de}
+        c, d = ar.realise_table(pa, inst, G_SCALE)
+        for be in backends:
+            with ar.backend(be):
+                al = c.get_best_alignment(d)
+            rec = ar.make_record(pa, c, d, al, D, de, G_SCALE, "partition", 1, search=False, band=0, with_recompute=False, modelopt=0,
+                                 want_backend="GLPK_MI" if be != "CBC" else "CBC", got_backend=ar.last_solver() or "",
+                                 meta={"family": "planted optimum", "sizes": [k, k], "candidates_expected": k * k + 2 * k, "backend": be})
+            recs.append(rec)
+    return recs
